@@ -22,6 +22,7 @@ inductive Fault
   | oobRead   -- the C would have read a byte at an index ≥ the size it was given
   | overlap   -- memcpy with overlapping source and destination (only in `legacy` mode of Tio)
   | hang      -- the C loop would not make progress (never produced for capacities the API accepts)
+  | oobWrite  -- the C would have stored beyond a buffer
 deriving Repr, DecidableEq
 
 /-- bounds-checked `utf8[i]` for an object of `s.length` bytes -/
